@@ -1448,7 +1448,8 @@ def rule_maybe(rows, prop, only=None, fn_only=None):
                     conj.append(cur)
                     if any(({truth_subject(c_, locs), truth_subject(c_, {})} & xs) for c_ in conj):
                         ok = True
-            site = "%s:%s" % (relfile(r["file"]), r["fn"].split("::")[-1])
+            # (a lambda is named by its enclosing file only, not by its line: an exemption must survive edits that move lines)
+            site = "%s:%s" % (relfile(r["file"]), re.sub(r"\(lambda@\d+\)", "(lambda)", r["fn"].split("::")[-1]))
             if not ok and site + ":" + f["a"] in tbl["maybe_exempt"]:
                 ok = True
             if not ok:
